@@ -84,6 +84,7 @@ def load_known():
                 head, _, what = line[6:].partition("::")
                 kv = dict(x.split("=", 1) for x in head.split() if "=" in x)
                 kv["what"] = what.strip()
+                kv["properties"] = kv.get("property", "").split(",")
                 known.append(kv)
             elif line.startswith("fixed:"):
                 fixed.append(line)
@@ -125,8 +126,31 @@ class SpecCheck:
         pass
 
     def witnesses(self):
-        """[(finding id, description, callable(cluster) -> still_fails bool)]"""
-        return []
+        """[(finding id, description, callable(cluster) -> still_fails bool)]: the fixed witness
+        units of the known findings listed for this property (witnesses/*.json)."""
+        import glob
+        out = []
+        for path in sorted(glob.glob(os.path.join(VERIF, "witnesses", "*.json"))):
+            doc = json.load(open(path))
+            if self.pid not in doc["properties"]:
+                continue
+            out.append((doc["id"], doc["what"], lambda cl, doc=doc: self.witness_fails(doc, cl)))
+        return out
+
+    def witness_fails(self, doc, cluster):
+        case = (doc["spec"], doc["meta"], doc["inputs"])
+        h = doc["hash_seeds"][0]
+        if h not in cluster.workers:
+            h = cluster.hseeds[0]
+        res = cluster.run(self.units_for(0, case, [h]))
+        r = res["0/%d" % h]
+        if "harness_error" in r:
+            raise orch.HarnessError("witness %s: %s" % (doc["id"], r["harness_error"][-500:]))
+        per_seed = {h: r["ok"]}
+        for v in self.judge(case[0], case[1], case[2], per_seed):
+            if self.attribute(case[0], case[1], case[2], per_seed, v) in (None, doc["id"]):
+                return True
+        return False
 
     def attribute(self, spec, meta, inputs, results, violation):
         """-> known finding id or None"""
@@ -249,7 +273,7 @@ class SpecCheck:
                 # known-finding witnesses
                 known, fixed = load_known()
                 for kfid, what, fn in self.witnesses():
-                    listed = [e for e in known if e.get("id") == kfid]
+                    listed = [e for e in known if e.get("id") == kfid and self.pid in e["properties"]]
                     still = fn(cluster)
                     stats.add("witness_run")
                     if still and listed:
@@ -420,15 +444,17 @@ def all_ok(results):
     return all(r["status"] == "ok" for r in results.values())
 
 
-def rejection_violations(results, must_accept):
-    """C08(d)-style: accept/reject must agree across seeds; legal-by-construction specs must compile."""
+def rejection_violations(results, must_accept, allowed=()):
+    """C08(d)-style: accept/reject must agree across seeds; legal-by-construction specs must
+    compile, except for whitelisted (exception type, raising function) signatures that the
+    unchanged tree is known to produce on corners of the generator's class."""
     vs = []
     oks = sorted(h for h, r in results.items() if r["status"] == "ok")
     rej = sorted(h for h, r in results.items() if r["status"] != "ok")
     if oks and rej:
         vs.append(Violation("seed_dependent_rejection", [oks[0], rej[0]],
                             {"accepted_on": oks[:4], "rejected_on": rej[:4], "reject": results[rej[0]]["reject"]}))
-    elif rej and must_accept:
+    elif rej and must_accept and (results[rej[0]]["reject"]["exc"], results[rej[0]]["reject"]["where"]) not in allowed:
         vs.append(Violation("legal_spec_rejected", [rej[0]], {"reject": results[rej[0]]["reject"]}))
     return vs
 
